@@ -25,7 +25,7 @@ from vlib.stepcount import LineCounter, BudgetExceeded  # noqa: E402
 
 ID = "C12"
 LEVEL = "exploration"
-RULE = ("seeded set-ups: grids 6x6 ... 20x20 (theta x r), uniform-cubic and general (degree 2-5) bases, potentials = random "
+RULE = ("seeded set-ups: grids 6x6 ... 20x20 (theta x r), uniform-cubic and general bases (degrees 2-5, also different degrees in theta and r, cubic on the general path), every case is a HISTORY of 2-4 steps on one operator object (two velocities, then a stronger different potential with dt2=-1.7dt, then the first again), potentials = random "
         "smooth/rough nodal values, Fourier mode x radial profile, rigid rotation omega r^2/2, constants; dt of either sign over "
         "three decades; several v; both boundary modes; explicit and implicit scheme (tolerances 1e-10 and 1e-13).  Every "
         "non-excluded node compared with the independent scheme; identities (constant potential, exact rigid rotation for "
@@ -35,7 +35,7 @@ RULE = ("seeded set-ups: grids 6x6 ... 20x20 (theta x r), uniform-cubic and gene
         "(scheme, basis path, boundary mode, potential kind, dt class, monitor).")
 ASSUMPTIONS = ["reference 2-D splines by dense collocation solves; Lipschitz constant of the drift estimated by central differences at 20 samples per cell (x1.2 safety)",
                "tolerance 500*eps*kappa*scale + gradient*(foot rounding + implicit stopping tolerance/(1-q))", "B0 taken from the constants object"]
-REQUIRED_EVENTS = {"nodes_compared": 1, "excluded_boundary_nodes": 0, "rotation_checks": 1, "constant_phi_checks": 1, "order_checks": 1,
+REQUIRED_EVENTS = {"nodes_compared": 1, "excluded_boundary_nodes": 0, "rotation_checks": 1, "constant_phi_checks": 1, "order_checks": 1, "history_steps": 1, "mixed_degree_cases": 1,
                    "implicit_runs_counted": 1, "feet_outside_low": 1, "feet_outside_high": 1}
 C = 500.0
 KEY_NOCONTRACT = "C12:implicit/no-contraction (q>=1)"
@@ -48,7 +48,8 @@ def gen_cases(tier, seed):
     n = 70 if tier == "quick" else 2500
     for k in range(n):
         deg = rng.choice([3, 3, 3, 2, 4, 5])
-        cases.append({"kind": "formula", "deg": deg, "nth": rng.randint(max(6, deg + 1), 20), "nr": rng.randint(max(6, deg + 2), 20),
+        deg_r = deg if rng.random() < 0.5 else rng.choice([2, 3, 4, 5])
+        cases.append({"kind": "formula", "deg": deg, "deg_r": deg_r, "nth": rng.randint(max(6, deg + 1), 20), "nr": rng.randint(max(6, deg_r + 2), 20),
                       "phi": rng.choice(["smooth", "smooth", "mode", "rough", "rotation", "constant"]), "explicit": rng.random() < 0.5,
                       "nul": rng.random() < 0.5, "dtclass": rng.choice(["small", "medium", "large"]), "sign": rng.choice([1, -1]),
                       "tol": rng.choice([1e-10, 1e-13]), "seed": rng.randrange(1 << 30), "cost": 60})
@@ -62,10 +63,12 @@ def gen_cases(tier, seed):
 # ---------------------------------------------------------------------------------------------------------------
 
 class Setup:
-    def __init__(self, spl, adv, deg, nth, nr, seed, explicit=True, nul=False, tol=1e-10):
+    def __init__(self, spl, adv, deg, nth, nr, seed, explicit=True, nul=False, tol=1e-10, deg_r=None):
         rng = random.Random(seed)
-        self.c = pg.make_constants(rMin=rng.uniform(0.3, 1.0), rMax=rng.uniform(4, 9), npts=[nr, nth, 8, 8], splineDegrees=[deg, deg, 3, 3], B0=rng.choice([1.0, 1.0, 2.0]))
-        self.eta, self.bs, self.breaks = pg.make_space(spl, self.c.npts, self.c.splineDegrees, pg.std_domain(self.c))
+        deg_r = deg if deg_r is None else deg_r
+        general = (deg != deg_r) and 3 in (deg, deg_r) or (deg == 3 and deg_r == 3 and seed % 5 == 0)
+        self.c = pg.make_constants(rMin=rng.uniform(0.3, 1.0), rMax=rng.uniform(4, 9), npts=[nr, nth, 8, 8], splineDegrees=[deg_r, deg, 3, 3], B0=rng.choice([1.0, 1.0, 2.0]))
+        self.eta, self.bs, self.breaks = pg.make_space(spl, self.c.npts, self.c.splineDegrees, pg.std_domain(self.c), force_general=general)
         self.th, self.r = self.eta[1], self.eta[0]
         self.op = adv.PoloidalAdvection(self.eta, [self.bs[1], self.bs[0]], self.c, nulEdge=nul, explicitTrap=explicit, tol=tol)
         self.t2 = rm.Tensor2D(self.bs[1], self.th, self.bs[0], self.r)
@@ -221,7 +224,7 @@ def _run_impl_counted(setup, acc, F, dt, phis, v, budget):
 def _formula(case, spl, adv, acc):
     rs = np.random.RandomState(case["seed"] % (1 << 31))
     rng = random.Random(case["seed"])
-    S = Setup(spl, adv, case["deg"], case["nth"], case["nr"], case["seed"], explicit=case["explicit"], nul=case["nul"], tol=case["tol"])
+    S = Setup(spl, adv, case["deg"], case["nth"], case["nr"], case["seed"], explicit=case["explicit"], nul=case["nul"], tol=case["tol"], deg_r=case.get("deg_r"))
     if S.t2.kappa > 1e8:
         return result(SKIP, what="ill conditioned 2-D space")
     amp = {"small": 0.3, "medium": 1.0, "large": 3.0}[case["dtclass"]] if case["phi"] != "rough" else 0.3
@@ -232,10 +235,11 @@ def _formula(case, spl, adv, acc):
     dt = case["sign"] * dt_mag
     q = abs(dt) / 2 * lip * 1.2
     scheme = "explicit" if case["explicit"] else "implicit"
-    path = "fast" if S.fast else "general-p%d" % case["deg"]
+    path = "fast" if S.fast else "general-p%d-p%d" % (case["deg"], case.get("deg_r", case["deg"]))
     base = "%s/%s/%s/%s/dt-%s" % (scheme, path, "null" if case["nul"] else "fEq", case["phi"], case["dtclass"])
     ev = {"nodes_compared": 0, "excluded_boundary_nodes": 0, "rotation_checks": 0, "constant_phi_checks": 0, "order_checks": 0,
-          "implicit_runs_counted": 0, "feet_outside_low": 0, "feet_outside_high": 0, "not_judged_q_between": 0}
+          "implicit_runs_counted": 0, "feet_outside_low": 0, "feet_outside_high": 0, "not_judged_q_between": 0, "history_steps": 0,
+          "mixed_degree_cases": int(case.get("deg_r", case["deg"]) != case["deg"])}
     cls = set()
     wit = {"case": case, "dt": dt, "q": q, "lip": lip}
     if not case["explicit"] and q > 0.8:
@@ -251,7 +255,23 @@ def _formula(case, spl, adv, acc):
             wit.update(dt=dt, q=q)
     phis = S.phi_spline(PH)
     vvals = [float(S.eta[3][0]), float(S.eta[3][len(S.eta[3]) // 2])]
-    for v in vvals:
+    # a HISTORY on one operator object (as gridStep and Strang splitting produce): the same potential with two
+    # velocities, then a different, stronger potential with another time step, then the first one again
+    hist = [(PH, Cphi, phis, dt, vvals[0], q), (PH, Cphi, phis, dt, vvals[1], q)]
+    if case["phi"] not in ("rotation", "constant"):
+        PH2, _om2 = make_phi(S, "smooth" if case["phi"] != "smooth" else "mode", rs, 2.5 * amp)
+        C2 = S.t2.coeffs(PH2)
+        lip2, dmax2 = S.lipschitz(C2)
+        dt2 = -1.7 * dt
+        q2 = abs(dt2) / 2 * lip2 * 1.2
+        if case["explicit"] or q2 <= 0.8:
+            hist.append((PH2, C2, S.phi_spline(PH2), dt2, vvals[0], q2))
+            hist.append((PH, Cphi, phis, dt, vvals[0], q))
+    lip_first, dmax_first = lip, dmax
+    for hstep, (PH, Cphi, phis, dt, v, q) in enumerate(hist):
+        if hstep >= 2:
+            lip, dmax = (lip2, dmax2) if hstep == 2 else (lip_first, dmax_first)
+            cls.add("%s/history-step%d" % (base, hstep))
         F0 = rs.standard_normal((case["nth"], case["nr"])) if case["nul"] else pg.f_eq(S.r[None, :], v, S.c) * (1 + 0.3 * rs.standard_normal((case["nth"], case["nr"])))
         got = F0.copy()
         if case["explicit"]:
@@ -271,6 +291,7 @@ def _formula(case, spl, adv, acc):
                 return result(VIOL, cls=sorted(cls), events=ev, key="C12:implicit/not-terminating-inside-contraction-regime",
                               what="implicit iteration needed more than %d sweeps although q=%.3g <= 0.8 (dt=%.4g, tol=%g, potential %s)" % (bound, q, dt, case["tol"], case["phi"]), witness=wit)
         ref, judged, info = S.ref_step(F0, Cphi, dt, v)
+        ev["history_steps"] += int(hstep >= 2)
         ev["feet_outside_low"] += info["low"]
         ev["feet_outside_high"] += info["high"]
         fmax = float(np.abs(F0).max())
